@@ -648,6 +648,7 @@ func c03ReadFile(db *sql.DB, path string) (*duck.Table, error) {
 	if len(repl) == 0 {
 		return tb, nil
 	}
+	verifkit.Class("file-with-decimal-column")
 	tb2, err := duck.Query(db, "SELECT * REPLACE ("+strings.Join(repl, ", ")+") FROM read_parquet("+duck.SQLString(path)+")")
 	if err != nil {
 		return nil, err
